@@ -41,6 +41,19 @@ JudgeDist(rec) ==
     IN IF bad = {} THEN TRUE ELSE Fail(rec.id, rec.routes[SetMin(bad)])
 
 ----------------------------------------------------------------------------
+\* kind "agree" (C02): obs[1] is the pure-Python engine, the others are routes into the C engine.
+\* The property is agreement of the engines; whether the reference itself equals the specification
+\* is decided under C01/C03 and only noted here.  Off-lattice floats are compared by the harness
+\* (-2 = equal to the reference within 4 ulp, -6 = differs from it).
+JudgeAgree(rec) ==
+    LET ref == rec.obs[1]
+        bad == {r \in 2..Len(rec.obs) : rec.obs[r] # ref}
+    IN IF bad # {} THEN Fail(rec.id, rec.routes[SetMin(bad)])
+       ELSE IF ref # DistExpected(rec)
+            THEN PrintT(<<"VERDICT-NOTE", rec.id, "reference-deviates-from-spec">>)
+            ELSE TRUE
+
+----------------------------------------------------------------------------
 \* kind "bounds": lb[r], ed[r] (observed, internal domain), ub-only distance
 JudgeBounds(rec) ==
     LET c == rec.c
@@ -111,6 +124,7 @@ JudgePath(rec) ==
 ----------------------------------------------------------------------------
 JudgeRec(rec) ==
     CASE rec.kind = "dist" -> JudgeDist(rec)
+      [] rec.kind = "agree" -> JudgeAgree(rec)
       [] rec.kind = "bounds" -> JudgeBounds(rec)
       [] rec.kind = "wps" -> JudgeWps(rec)
       [] rec.kind = "path" -> JudgePath(rec)
